@@ -3,7 +3,9 @@
    Faithful transcription (defects included) of
      pandapower/build_bus.py      _calc_pq_elements_and_add_on_ppc (:596-658), _calc_shunts_and_add_on_ppc (:712-800)
      pandapower/pypower/makeSbus.py  _get_Sload (:23-38), _get_Sbus (:16-20)
-     pandapower/pypower/pfsoln.py    _update_q (:108-141), _update_p (:94-105), _split_p_for_gens_at_same_bus (:76-92)
+     pandapower/pypower/pfsoln.py    pfsoln (:25-70), _update_q, _update_p, _split_p_for_gens_at_same_bus
+       (after "fix: slack P and generator Q results use the voltage dependent bus demand of the power flow":
+        the local demand added to the injection is _get_Sload(bus, |V|); the static rule is kept as *_old)
      pandapower/results_bus.py    write_voltage_dependend_load_results (:142-187), write_pq_results_to_element (:190-248),
                                   _get_p_q_results (:409-443), _get_shunt_results (:521-588)
      pandapower/results_gen.py    _get_gen_results (:25-52)
@@ -112,13 +114,16 @@ Definition EPS : Q := 1 # 4503599627370496.       (* finfo(float).eps = 2^-52 *)
 Definition n_on (n : net) : nat := length (filter g_on (gens n)).
 
 (* _update_q :108-141, pointwise for the gen row g; Sinj = V conj(Ybus V) at g's bus (p.u.) *)
-Definition q_tot0 (n : net) (k : nat) (sinj : C) : Q := qadd (qmul (im sinj) (base n)) (QD n k).  (* inj Q + local Qd *)
+(* inj Q + local Qd, Qd = Sload.imag of pfsoln (:45-47) *)
+Definition q_tot0 (n : net) (k : nat) (v : Q) (sinj : C) : Q := qadd (qmul (im sinj) (base n)) (im (Sload n k v)).
+(* before the repair: + bus[gbus, QD] *)
+Definition q_tot0_old (n : net) (k : nat) (sinj : C) : Q := qadd (qmul (im sinj) (base n)) (QD n k).
 Definition qg_den (n : net) (k : nat) : Q :=
   qadd (qsub (sumf g_qmax (gens_on_at n k)) (sumf g_qmin (gens_on_at n k))) EPS.
-Definition qg_after_val (n : net) (g : gen) (sinj : C) : Q :=
+Definition qg_after_val (n : net) (g : gen) (v : Q) (sinj : C) : Q :=
   if g_on g then
     let k := g_bus g in
-    let q0 := q_tot0 n k sinj in
+    let q0 := q_tot0 n k v sinj in
     if Nat.ltb 1 (n_on n) then
       let G := gens_on_at n k in
       let q1 := qdiv q0 (nq (length G)) in                       (* / ngg *)
@@ -130,17 +135,20 @@ Definition qg_after_val (n : net) (g : gen) (sinj : C) : Q :=
     else q0
   else 0.
 (* None = the float expression divides by zero (inf/nan written to the gen row) *)
-Definition qg_after (n : net) (g : gen) (sinj : C) : option Q :=
+Definition qg_after (n : net) (g : gen) (v : Q) (sinj : C) : option Q :=
   if g_on g && Nat.ltb 1 (n_on n) && negb (qeqb (sumf g_qmin (gens_on_at n (g_bus g))) (sumf g_qmax (gens_on_at n (g_bus g))))
      && qeqb (qg_den n (g_bus g)) 0
-  then None else Some (qg_after_val n g sinj).
+  then None else Some (qg_after_val n g v sinj).
 
 (* _update_p :94-105 and _split_p_for_gens_at_same_bus :76-92, pointwise for the gen row g.
    [ref] = the ref bus list handed to pfsoln (widened by the buses with slack weights under distributed
    slack, run_newton_raphson_pf.py:77-90).  When _update_p runs all ppci gens are on (pfsoln.py:47-49 re-includes
    the limited ones), so positions in gbus are gen row numbers. *)
-Definition p_bus (n : net) (k : nat) (sinj : C) : Q := qadd (qmul (re sinj) (base n)) (PD n k).   (* inj P + local Pd *)
-Definition pg_after (n : net) (ref : list nat) (g : gen) (sinj : C) : Q :=
+(* inj P + local Pd, Pd = Sload.real of pfsoln *)
+Definition p_bus (n : net) (k : nat) (v : Q) (sinj : C) : Q := qadd (qmul (re sinj) (base n)) (re (Sload n k v)).
+(* before the repair: + bus[slack_bus, PD] *)
+Definition p_bus_old (n : net) (k : nat) (sinj : C) : Q := qadd (qmul (re sinj) (base n)) (PD n k).
+Definition pg_after (n : net) (ref : list nat) (g : gen) (v : Q) (sinj : C) : Q :=
   let k := g_bus g in
   if g_on g && memn k ref then
     let G := gens_on_at n k in
@@ -148,13 +156,13 @@ Definition pg_after (n : net) (ref : list nat) (g : gen) (sinj : C) : Q :=
       if g_ref g then
         let ext := filter g_ref G in                                  (* intersect1d(gens_at_bus, ref_gens) *)
         let pv := filter (fun x => negb (g_ref x)) G in               (* setdiff1d *)
-        let p_ext := qsub (p_bus n k sinj) (sumf g_pg pv) in
+        let p_ext := qsub (p_bus n k v sinj) (sumf g_pg pv) in
         let sw := sumf g_w ext in
         if qltb 0 sw then
           qadd (g_pg g) (qdiv (qmul (qsub p_ext (sumf g_pg ext)) (g_w g)) sw)
         else qdiv p_ext (nq (length ext))
       else g_pg g
-    else p_bus n k sinj
+    else p_bus n k v sinj
   else g_pg g.
 (* ref bus without a gen: bus[slack_bus, PD] = -Sbus.real*baseMVA  (pfsoln.py:100-102) *)
 Definition PD_after (n : net) (ref : list nat) (k : nat) (sinj : C) : Q :=
@@ -216,10 +224,10 @@ Definition stack_q (n : net) (vs : list Q) : list (nat * Q) :=
 Definition sum_group (pb : nat) (l : list (nat * Q)) : Q := sumf snd (filter (fun x => Nat.eqb (fst x) pb) l).
 Definition res_bus_p (n : net) (ref : list nat) (vs : list Q) (ss : list C) (pb : nat) : Q :=
   qsub (sum_group pb (stack_p n vs))
-       (sum_group pb (map (fun g => (g_pbus g, pg_after n ref g (sof ss (g_bus g)))) (gens n))).
+       (sum_group pb (map (fun g => (g_pbus g, pg_after n ref g (vof vs (g_bus g)) (sof ss (g_bus g)))) (gens n))).
 Definition res_bus_q (n : net) (vs : list Q) (ss : list C) (pb : nat) : Q :=
   qsub (sum_group pb (stack_q n vs))
-       (sum_group pb (map (fun g => (g_pbus g, qg_after_val n g (sof ss (g_bus g)))) (gens n))).
+       (sum_group pb (map (fun g => (g_pbus g, qg_after_val n g (vof vs (g_bus g)) (sof ss (g_bus g)))) (gens n))).
 (* with dclines (results_gen.py:41-45): the two auxiliary gens of every dcline are rows of net.gen while the results are
    extracted (so they are in [gens n], PG = -p_from / -p_to), and res_dcline.p_from_mw/p_to_mw (= -PG of those rows) are
    stacked into the *generation* sum as well: the dcline cancels out of res_bus.  [dcl] = (terminal bus, terminal power). *)
@@ -234,12 +242,12 @@ Definition net_cons_p (n : net) (ref : list nat) (vs : list Q) (ss : list C) (pb
   qsub (qadd (qadd (sumf (fun l => res_load_p n l (vof vs (l_bus l))) (filter (fun l => Nat.eqb (l_pbus l) pb) (loads n)))
                    (sumf (fun e => qmul (pq_sign e) (res_pq_p e)) (filter (fun e => Nat.eqb (e_pbus e) pb) (pqs n))))
              (sumf (fun s => res_sh_p s (vof vs (s_bus s))) (filter (fun s => Nat.eqb (s_pbus s) pb) (shunts n))))
-       (sumf (fun g => pg_after n ref g (sof ss (g_bus g))) (filter (fun g => Nat.eqb (g_pbus g) pb) (gens n))).
+       (sumf (fun g => pg_after n ref g (vof vs (g_bus g)) (sof ss (g_bus g))) (filter (fun g => Nat.eqb (g_pbus g) pb) (gens n))).
 Definition net_cons_q (n : net) (vs : list Q) (ss : list C) (pb : nat) : Q :=
   qsub (qadd (qadd (sumf (fun l => res_load_q n l (vof vs (l_bus l))) (filter (fun l => Nat.eqb (l_pbus l) pb) (loads n)))
                    (sumf (fun e => qmul (pq_sign e) (res_pq_q e)) (filter (fun e => Nat.eqb (e_pbus e) pb) (pqs n))))
              (sumf (fun s => res_sh_q s (vof vs (s_bus s))) (filter (fun s => Nat.eqb (s_pbus s) pb) (shunts n))))
-       (sumf (fun g => qg_after_val n g (sof ss (g_bus g))) (filter (fun g => Nat.eqb (g_pbus g) pb) (gens n))).
+       (sumf (fun g => qg_after_val n g (vof vs (g_bus g)) (sof ss (g_bus g))) (filter (fun g => Nat.eqb (g_pbus g) pb) (gens n))).
 
 (* ---------- spec side: what the result tables report at ppc bus k *)
 (* consumption reported by the bus elements (loads, pq elements with sign, shunt-like) *)
@@ -250,10 +258,10 @@ Definition cons_q (n : net) (k : nat) (v : Q) : Q :=
   qadd (qadd (sumf (fun l => res_load_q n l v) (loads_at n k)) (sumf (fun e => qmul (pq_sign e) (res_pq_q e)) (pqs_at n k)))
        (sumf (fun s => res_sh_q s v) (shunts_at n k)).
 (* generation reported for the gen rows at k *)
-Definition gen_p (n : net) (ref : list nat) (k : nat) (sinj : C) : Q :=
-  sumf (fun g => pg_after n ref g sinj) (gens_on_at n k).
-Definition gen_q (n : net) (k : nat) (sinj : C) : Q :=
-  sumf (fun g => qg_after_val n g sinj) (gens_on_at n k).
+Definition gen_p (n : net) (ref : list nat) (k : nat) (v : Q) (sinj : C) : Q :=
+  sumf (fun g => pg_after n ref g v sinj) (gens_on_at n k).
+Definition gen_q (n : net) (k : nat) (v : Q) (sinj : C) : Q :=
+  sumf (fun g => qg_after_val n g v sinj) (gens_on_at n k).
 (* sum of the branch terminal flows at k (MVA) implied by the injection and the bus shunt:
    (Ybus V)_k = sum of branch terminal currents + ysh_k V_k,  ysh = (GS + j BS)/baseMVA  (makeYbus) *)
 Definition flows (n : net) (k : nat) (v : Q) (sinj : C) : C :=
@@ -261,9 +269,9 @@ Definition flows (n : net) (k : nat) (v : Q) (sinj : C) : C :=
       (qadd (qmul (im sinj) (base n)) (qmul (qmul v v) (BS n k))).
 (* nodal balance residual: reported consumption - reported generation + branch flows leaving the bus *)
 Definition resid_p (n : net) (ref : list nat) (k : nat) (v : Q) (sinj : C) (f : C) : Q :=
-  qadd (qsub (cons_p n k v) (gen_p n ref k sinj)) (re f).
+  qadd (qsub (cons_p n k v) (gen_p n ref k v sinj)) (re f).
 Definition resid_q (n : net) (k : nat) (v : Q) (sinj : C) (f : C) : Q :=
-  qadd (qsub (cons_q n k v) (gen_q n k sinj)) (im f).
+  qadd (qsub (cons_q n k v) (gen_q n k v sinj)) (im f).
 
 (* demand-weighted fractions actually present at k *)
 Definition act_p (l : load) : Q := qmul (qmul (l_p l) (l_sc l)) (b2q (l_on l)).
@@ -284,7 +292,7 @@ Definition zipdef_q (n : net) (k : nat) (v : Q) : Q :=
   let z := zip_row n k in
   qadd (qmul (qsub v 1) (qsub (qmul (QD n k) (z_ciq z)) (sum_qci n k)))
        (qmul (qsub (qmul v v) 1) (qsub (qmul (QD n k) (z_czq z)) (sum_qcz n k))).
-(* size of the defect at generator buses: _update_p/_update_q add the *static* PD/QD *)
+(* size of the defect of the OLD rule at generator buses: _update_p/_update_q added the *static* PD/QD *)
 Definition gendef_p (n : net) (k : nat) (v : Q) : Q :=
   if negb (vdl n) then 0 else
   qadd (qmul (qsub v 1) (sum_pci n k)) (qmul (qsub (qmul v v) 1) (sum_pcz n k)).
@@ -292,11 +300,11 @@ Definition gendef_q (n : net) (k : nat) (v : Q) : Q :=
   if negb (vdl n) then 0 else
   qadd (qmul (qsub v 1) (sum_qci n k)) (qmul (qsub (qmul v v) 1) (sum_qcz n k)).
 (* what the proportional Q split loses through the EPS in its denominator *)
-Definition qsplit_loss (n : net) (k : nat) (sinj : C) : Q :=
+Definition qsplit_loss (n : net) (k : nat) (v : Q) (sinj : C) : Q :=
   let G := gens_on_at n k in
   let qmin := sumf g_qmin G in let qmax := sumf g_qmax G in
   if Nat.ltb 1 (n_on n) && negb (qeqb qmin qmax)
-  then qdiv (qmul (qsub (q_tot0 n k sinj) qmin) EPS) (qadd (qsub qmax qmin) EPS) else 0.
+  then qdiv (qmul (qsub (q_tot0 n k v sinj) qmin) EPS) (qadd (qsub qmax qmin) EPS) else 0.
 
 (* ---------- guards (boolean, on the input only) *)
 (* G01: the bus-row fractions represent the demand-weighted ZIP mix of the bus *)
@@ -308,7 +316,8 @@ Definition G01q (n : net) (k : nat) : bool :=
   negb (vdl n) ||
   (let z := zip_row n k in
    qeqb (qmul (QD n k) (z_ciq z)) (sum_qci n k) && qeqb (qmul (QD n k) (z_czq z)) (sum_qcz n k)).
-(* G01g: no voltage-dependent demand at a bus whose generator result is computed from the static PD/QD *)
+(* G01g (guard of the OLD rule only): no voltage-dependent demand at a bus whose generator result was computed from the
+   static PD/QD *)
 Definition G01gp (n : net) (k : nat) : bool := negb (vdl n) || (qeqb (sum_pci n k) 0 && qeqb (sum_pcz n k) 0).
 Definition G01gq (n : net) (k : nat) : bool := negb (vdl n) || (qeqb (sum_qci n k) 0 && qeqb (sum_qcz n k) 0).
 
@@ -319,22 +328,28 @@ Definition split_ok (n : net) (k : nat) : bool :=
   let G := gens_on_at n k in Nat.eqb (length G) 1 || (Nat.ltb 1 (length G) && existsb g_ref G).
 
 (* ---------- DC power flow (pf/run_dc_pf.py:75-105, results as above with ac = False) *)
-(* Pbus = real(makeSbus) - Pbusinj - GS/baseMVA: the bus shunt conductance enters at unit voltage, while
-   _get_shunt_results scales the reported shunt / ward power with VM^2, VM = the value left in ppc["bus"][:, VM]
-   (1.0, or the vm_pu setpoint at ext_grid / gen buses).  [gsum] = generation reported at the bus, [pinj] = (Bbus*Va)_k. *)
-Definition dc_cons_p (n : net) (k : nat) (v : Q) : Q :=
+(* Pbus = real(makeSbus) - Pbusinj - GS/baseMVA: the bus shunt conductance enters at unit voltage, and after
+   "fix: DC power flow reports shunt, ward and xward impedance powers at unit voltage" _get_shunt_results reports them
+   at unit voltage too (_get_shunt_vm).  Before it scaled them with VM^2, VM = the value left in ppc["bus"][:, VM]
+   (1.0, or the vm_pu setpoint at ext_grid / gen buses): kept as dc_cons_p_old.
+   [gsum] = generation reported at the bus, [pinj] = (Bbus*Va)_k. *)
+Definition dc_cons_p_old (n : net) (k : nat) (v : Q) : Q :=
   qadd (qadd (sumf act_p (loads_at n k)) (sumf (fun e => qmul (pq_sign e) (res_pq_p e)) (pqs_at n k)))
        (sumf (fun s => res_sh_p s v) (shunts_at n k)).
+Definition dc_cons_p (n : net) (k : nat) : Q := dc_cons_p_old n k 1.
 (* (Bbus*Va)_k is the sum of the DC branch flows leaving k; the bus shunt is not part of Bbus *)
 Definition dc_flows (n : net) (k : nat) (pinj : Q) : Q := qmul pinj (base n).
 Definition dc_mism (n : net) (k : nat) (pinj gsum : Q) : Q :=
   qsub (qmul pinj (base n)) (qsub (qsub gsum (PD n k)) (GS n k)).
-Definition dc_resid_p (n : net) (k : nat) (v pinj gsum : Q) : Q :=
-  qadd (qsub (dc_cons_p n k v) gsum) (dc_flows n k pinj).
+Definition dc_resid_p (n : net) (k : nat) (pinj gsum : Q) : Q :=
+  qadd (qsub (dc_cons_p n k) gsum) (dc_flows n k pinj).
+Definition dc_resid_p_old (n : net) (k : nat) (v pinj gsum : Q) : Q :=
+  qadd (qsub (dc_cons_p_old n k v) gsum) (dc_flows n k pinj).
 Definition dcdef_p (n : net) (k : nat) (v : Q) : Q := qmul (qsub (qmul v v) 1) (GS n k).
 Definition G01dc (n : net) (k : nat) (v : Q) : bool := qeqb (GS n k) 0 || qeqb (qmul v v) 1.
 Definition run_dc (n : net) (vs : list Q) (nb : nat) : out :=
-  OL (map (fun k => OL [oq (PD n k); oq (GS n k); oq (dcdef_p n k (vof vs k)); OB (G01dc n k (vof vs k))]) (seq 0 nb)).
+  OL (map (fun k => OL [oq (PD n k); oq (GS n k); oq (dc_cons_p n k);
+                        OL (map (fun s => oq (res_sh_p s 1)) (shunts_at n k))]) (seq 0 nb)).
 
 (* ---------- run wrappers (correspondence) *)
 Definition run_busrow (n : net) (k : nat) : out :=
@@ -345,14 +360,22 @@ Definition run_res (n : net) (vs : list Q) : out :=
   OL [ OL (map (fun l => OL [oq (res_load_p n l (vof vs (l_bus l))); oq (res_load_q n l (vof vs (l_bus l)))]) (loads n));
        OL (map (fun e => OL [oq (res_pq_p e); oq (res_pq_q e)]) (pqs n));
        OL (map (fun s => OL [oq (res_sh_p s (vof vs (s_bus s))); oq (res_sh_q s (vof vs (s_bus s)))]) (shunts n)) ].
-Definition run_gens (n : net) (ref : list nat) (ss : list C) : out :=
-  OL (map (fun g => OL [oq (pg_after n ref g (sof ss (g_bus g))); ooq (qg_after n g (sof ss (g_bus g)))]) (gens n)).
+Definition run_gens (n : net) (ref : list nat) (vs : list Q) (ss : list C) : out :=
+  OL (map (fun g => OL [oq (pg_after n ref g (vof vs (g_bus g)) (sof ss (g_bus g)));
+                        ooq (qg_after n g (vof vs (g_bus g)) (sof ss (g_bus g)))]) (gens n)).
 Definition run_resbus (n : net) (ref : list nat) (vs : list Q) (ss : list C) (dclp dclq : list (nat * Q)) (pbs : list nat) : out :=
   OL (map (fun pb => OL [oq (res_bus_p_dcl n ref vs ss dclp pb); oq (res_bus_q_dcl n vs ss dclq pb)]) pbs).
 (* predicted nodal residual per ppc bus from the injections (flows derived from Sinj and the bus shunt) *)
 Definition run_resid (n : net) (ref : list nat) (vs : list Q) (ss : list C) (nb : nat) : out :=
   OL (map (fun k => let v := vof vs k in let s := sof ss k in let f := flows n k v s in
                     OL [oq (resid_p n ref k v s f); oq (resid_q n k v s f); oc f;
-                        OB (G01p n k); OB (G01q n k); OB (G01gp n k); OB (G01gq n k)]) (seq 0 nb)).
+                        OB (G01p n k); OB (G01q n k)]) (seq 0 nb)).
 Definition run_all (n : net) (ref : list nat) (vs : list Q) (ss : list C) (nb : nat) (dclp dclq : list (nat * Q)) (pbs : list nat) : out :=
-  OL [run_busrows n nb; run_res n vs; run_gens n ref ss; run_resbus n ref vs ss dclp dclq pbs; run_resid n ref vs ss nb].
+  OL [run_busrows n nb; run_res n vs; run_gens n ref vs ss; run_resbus n ref vs ss dclp dclq pbs; run_resid n ref vs ss nb].
+
+(* ---------- the rule before "fix: slack P and generator Q results use the voltage dependent bus demand ..." at a bus
+   with a single generator row: the row got  inj + static PD / QD *)
+Definition resid_p_ref_old (n : net) (k : nat) (v : Q) (sinj : C) : Q :=
+  qadd (qsub (cons_p n k v) (p_bus_old n k sinj)) (re (flows n k v sinj)).
+Definition resid_q_gen_old (n : net) (k : nat) (v : Q) (sinj : C) : Q :=
+  qadd (qsub (cons_q n k v) (q_tot0_old n k sinj)) (im (flows n k v sinj)).
